@@ -201,10 +201,10 @@ mut("c06-oversize-drop-keeps-pubrec-set", ["C06", "C08", "C14"], CORE,
     "                self.pid_puback.remove(&packet_id);\n                self.pid_pubrec.remove(&packet_id);\n                self.pid_pubcomp.remove(&packet_id);",
     "                self.pid_puback.remove(&packet_id);\n                self.pid_pubcomp.remove(&packet_id);",
     note="an oversize QoS 2 PUBLISH dropped on resume keeps waiting for PUBREC: a late PUBREC is then 'matching'")
-mut("c12-resend-count-off-by-one", ["C12", "C08"], CORE,
-    "            self.publish_send_count = resent.min(u16::MAX as usize) as u16;",
-    "            self.publish_send_count = resent.saturating_sub(1).min(u16::MAX as usize) as u16;",
-    note="one retransmitted packet is not counted against Receive Maximum")
+mut("c12-resume-count-forgets-pubcomp", ["C12", "C08"], CORE,
+    "            let incomplete = self.pid_puback.len() + self.pid_pubrec.len() + self.pid_pubcomp.len();",
+    "            let incomplete = self.pid_puback.len() + self.pid_pubrec.len();",
+    note="exchanges awaiting PUBCOMP are not counted against Receive Maximum on resume")
 
 ROOT = "/tmp/mutants-scratch"
 REPO = f"{ROOT}/repo"
